@@ -228,7 +228,9 @@ impl Story {
                         }
                     }
 
+                    // Everything has been handed to the handler exactly once.
                     self.reset_errors();
+                    self.get_state_mut().reset_warnings();
                 }
                 // No error handler: throw for errors, silently discard warnings
                 None => {
